@@ -60,6 +60,8 @@ pub struct Stepper {
     pub tick_err: Option<String>,
     sleep_base: u64,
     pub track_custom: bool,
+    last_in: usize,
+    ticks_since_in: u64,
 }
 
 pub fn new_kanata(cfg: &str, files: &[(String, String)]) -> Result<Kanata, String> {
@@ -105,6 +107,8 @@ impl Stepper {
             tick_err: None,
             sleep_base: kanata_verif_rt::inactive_slept_ns(),
             track_custom: false,
+            last_in: usize::MAX,
+            ticks_since_in: 0,
         }
     }
 
@@ -138,7 +142,9 @@ impl Stepper {
         }
         let evs = std::mem::take(&mut self.k.kbd_out.outputs.events);
         for s in evs {
-            if let Some(e) = parse_out(self.now, &s) {
+            if let Some(mut e) = parse_out(self.now, &s) {
+                e.in_idx = self.last_in;
+                e.dt = self.ticks_since_in;
                 if self.blockable {
                     self.trace.outputs_while_blockable.push(e.clone());
                 }
@@ -234,6 +240,7 @@ impl Stepper {
             }
         }
         self.now += n as u64;
+        self.ticks_since_in += n as u64;
         self.trace.ticks += n as u64;
         self.trace.sim_ms += n as u64;
         self.drain();
@@ -271,6 +278,8 @@ impl Stepper {
 
     fn before_input(&mut self, op_idx: usize) {
         self.trace.ins.push(InEv { t: self.now, op_idx });
+        self.last_in = op_idx;
+        self.ticks_since_in = 0;
         if self.blocked {
             // woken from recv(): handle the event then tick once (owed to the following gap)
             self.owed_tick = true;
